@@ -4,5 +4,5 @@ NAME=$1; shift
 cd /verif
 [ -z "$(git -C /repo status --porcelain --untracked-files=no)" ] || { echo "/repo has uncommitted changes"; exit 2; }
 git -C /repo apply /verif/seeded/$NAME/patch.diff || { echo "patch does not apply to /repo"; exit 2; }
-for c in "$@"; do echo "--- $c on seeded $NAME"; ./check $c --tier quick 2>&1 | tail -6; echo "rc=$?"; done
+for c in "$@"; do echo "--- $c on seeded $NAME"; ./check $c --tier quick > /var/tmp/seedrun.log 2>&1; echo "rc=$?"; tail -4 /var/tmp/seedrun.log; done
 git -C /repo checkout -- .
